@@ -595,7 +595,7 @@ func runC03E2E(e *Env) {
 	// layer (progress display, acknowledgement bookkeeping) runs thousands of
 	// times against its periodic tickers; judged by bounded progress (no change
 	// of the output directory for 20 s), not by a deadline
-	for i := 0; i < e.Pick(2, 8); i++ {
+	for i := 0; i < e.Pick(4, 8); i++ {
 		c := e2eCase{ID: fmt.Sprintf("C03e2e-tiny-%d", i), Shape: "manytiny", Seed: vk.Mix(e.Seed + uint64(i)*977), Addrs: 1, CS: 65536, StallS: 20, TimeoutS: 400}
 		if i%2 == 1 {
 			c.HostArgs = []string{"--total-streams", "8", "--total-connections", "2"}
